@@ -241,6 +241,261 @@ func kaitaiSig(what string, ct int, recs [][]byte) string {
 	return s
 }
 
+// kaitaiOracle is the property oracle of C20 for one written file: the generated Kaitai reader parses it and
+// yields the header the writer wrote and, record by record, what the native reader returns.  tag prefixes the
+// violation signature with the class of writer program ("" = append-only).
+func kaitaiOracle(res *Result, i int, ct int, tag string, recs [][]byte, cs string, native [][]byte, impl string, rio *gokaitai.RecordioV4, perr error) error {
+	res.Evaluations++
+	if perr != nil {
+		res.Violate(i, "C20", kaitaiSig(tag+"parse-error", ct, recs), "kaitai reader failed: "+impl+" ("+perr.Error()+")", cs)
+	} else {
+		var bad []string
+		if rio.FileHeader.Version != uint32(recordio.CurrentVersion) {
+			bad = append(bad, fmt.Sprintf("version %d", rio.FileHeader.Version))
+		}
+		if int(rio.FileHeader.CompressionType) != ct || kaitaiEnumName(rio.FileHeader.CompressionType) == "?" {
+			bad = append(bad, fmt.Sprintf("compression %d (%s), written %d", int(rio.FileHeader.CompressionType), kaitaiEnumName(rio.FileHeader.CompressionType), ct))
+		}
+		if len(rio.Record) != len(native) {
+			bad = append(bad, fmt.Sprintf("%d records, native reader sees %d", len(rio.Record), len(native)))
+		} else {
+			comp := compressorFor(ct)
+			for k, rec := range rio.Record {
+				if (rec.RecordNil == 1) != (native[k] == nil) || rec.RecordNil > 1 {
+					bad = append(bad, fmt.Sprintf("record %d: nil flag %d, native nil=%v", k, rec.RecordNil, native[k] == nil))
+					continue
+				}
+				if !bytes.Equal(rec.Magic, recordio.MagicNumberSeparatorLongBytes) {
+					bad = append(bad, fmt.Sprintf("record %d: magic %x", k, rec.Magic))
+				}
+				// stored bytes: nothing for nil, raw bytes when uncompressed, compressor output otherwise
+				var want []byte
+				switch {
+				case native[k] == nil:
+					want = nil
+				case comp == nil:
+					want = native[k]
+				default:
+					st, err := comp.Compress(native[k])
+					if err != nil {
+						return fmt.Errorf("compress: %w", err)
+					}
+					want = st
+					// independent of the compressor being deterministic: the stored bytes decompress to the record
+					back, derr := comp.Decompress(rec.Payload)
+					if derr != nil || !bytes.Equal(back, native[k]) {
+						bad = append(bad, fmt.Sprintf("record %d: payload does not decompress to the record (%v)", k, derr))
+					}
+				}
+				if !bytes.Equal(rec.Payload, want) {
+					bad = append(bad, fmt.Sprintf("record %d: payload %s, stored bytes %s", k, gb(nonNil(rec.Payload)), gb(nonNil(want))))
+				}
+			}
+		}
+		if len(bad) > 0 {
+			res.Violate(i, "C20", kaitaiSig(tag+"wrong-records", ct, recs), strings.Join(bad, "; "), cs)
+		}
+	}
+	return nil
+}
+
+// ---------------------------------------------------------------------------------------------
+// writer programs with Seek (the writer's third public call): "every written file" includes files whose writer
+// was rewound one, two or three times to the offset of a record that still survives (or to the current end) and
+// then wrote less, the same or more than it rolled back.  Offsets of records that were rolled back since are no
+// record boundaries any more and are not used (cf. rio.go and DESIGN.md 9.6).  Payloads often end in zero bytes:
+// a left-over tail of zeros is read as end of file by the native reader, the schema has no such rule.
+
+type kaitaiSeekOp struct {
+	seek   bool
+	rec    []byte // write
+	choice uint64 // seek: which surviving boundary (resolved while the program runs)
+	target uint64 // seek: the resolved offset
+}
+
+type kaitaiSeekCase struct {
+	wbuf  int
+	ops   []kaitaiSeekOp
+	seeks int
+}
+
+func (c *kaitaiSeekCase) str(ct int) string {
+	var sb strings.Builder
+	fmt.Fprintf(&sb, "comp=%d wbuf=%d program=", ct, c.wbuf)
+	for i, o := range c.ops {
+		if i > 0 {
+			sb.WriteByte(',')
+		}
+		if o.seek {
+			fmt.Fprintf(&sb, "seek:%d", o.target)
+		} else {
+			fmt.Fprintf(&sb, "w:%s", gb(o.rec))
+		}
+	}
+	return sb.String()
+}
+
+// payload of a seek program: the generic generator, a zero tail appended to half of them
+func genKaitaiSeekPayload(r *Rng, around []int, maxLen int) []byte {
+	var p []byte
+	switch k := r.Intn(100); {
+	case k < 35:
+		p = genPayload(r, around)
+	case k < 70:
+		p = r.Bytes(r.Intn(maxLen + 1))
+	default:
+		p = make([]byte, r.Intn(maxLen+1)) // all zeros
+	}
+	if len(p) > maxLen {
+		p = p[:maxLen]
+	}
+	if p != nil && r.Chance(50) {
+		z := 1 + r.Intn(40)
+		if r.Chance(30) {
+			z = 1 + r.Intn(600)
+		}
+		p = append(append([]byte{}, p...), make([]byte, z)...)
+	}
+	return p
+}
+
+func genKaitaiSeekCase(r *Rng, tier string) *kaitaiSeekCase {
+	c := &kaitaiSeekCase{wbuf: r.Pick(bufSizes)}
+	around := []int{126, 127, 128, 129, c.wbuf, 36}
+	maxLen := []int{8, 40, 300, 3000}[r.Intn(4)]
+	if tier == "thorough" && r.Chance(10) {
+		maxLen = 20000
+	}
+	for i, n := 0, r.Intn(4); i < n; i++ { // records that stay
+		c.ops = append(c.ops, kaitaiSeekOp{rec: genKaitaiSeekPayload(r, around, maxLen)})
+	}
+	// the record(s) that will be rolled back: mostly one long record
+	for i, n := 0, 1+r.Intn(2); i < n; i++ {
+		p := genKaitaiSeekPayload(r, around, maxLen)
+		if r.Chance(60) {
+			p = genKaitaiSeekPayload(r, around, maxLen*2)
+		}
+		c.ops = append(c.ops, kaitaiSeekOp{rec: p})
+	}
+	c.seeks = 1 + r.Intn(3)
+	for k := 0; k < c.seeks; k++ {
+		c.ops = append(c.ops, kaitaiSeekOp{seek: true, choice: r.Next()})
+		for i, n := 0, r.Intn(3); i < n; i++ { // nothing, or records of any length relative to what was rolled back
+			c.ops = append(c.ops, kaitaiSeekOp{rec: genKaitaiSeekPayload(r, around, maxLen)})
+		}
+	}
+	return c
+}
+
+// runs the program with the real writer; returns the image and the records that survive
+func kaitaiWriteSeekProgram(res *Result, path string, ct int, c *kaitaiSeekCase) ([]byte, [][]byte, error) {
+	w, err := recordio.NewFileWriter(recordio.Path(path), recordio.CompressionType(ct), recordio.BufferSizeBytes(c.wbuf))
+	if err != nil {
+		return nil, nil, fmt.Errorf("NewFileWriter: %w", err)
+	}
+	if err := w.Open(); err != nil {
+		return nil, nil, fmt.Errorf("writer open: %w", err)
+	}
+	type sv struct {
+		off uint64
+		rec []byte
+	}
+	var surv []sv
+	for k := range c.ops {
+		o := &c.ops[k]
+		if !o.seek {
+			off, err := w.Write(o.rec)
+			if err != nil {
+				_ = w.Close()
+				return nil, nil, fmt.Errorf("write: %w", err)
+			}
+			surv = append(surv, sv{off, o.rec})
+			continue
+		}
+		// target: the offset of a surviving record (the newest ones preferred) or the current end
+		switch ch := o.choice % 10; {
+		case len(surv) == 0 || ch == 9:
+			o.target = w.Size()
+			res.Stat("seek-program:seek-to-end")
+		case ch < 6:
+			o.target = surv[len(surv)-1-int(o.choice/16)%minInt(len(surv), 2)].off
+			res.Stat("seek-program:seek-to-one-of-last-two-records")
+		default:
+			o.target = surv[int(o.choice/16)%len(surv)].off
+			res.Stat("seek-program:seek-to-any-surviving-record")
+		}
+		if err := w.Seek(o.target); err != nil {
+			_ = w.Close()
+			return nil, nil, fmt.Errorf("seek to the surviving record boundary %d: %w", o.target, err)
+		}
+		n := 0
+		for _, s := range surv {
+			if s.off < o.target {
+				surv[n] = s
+				n++
+			}
+		}
+		surv = surv[:n]
+	}
+	if err := w.Close(); err != nil {
+		return nil, nil, fmt.Errorf("writer close: %w", err)
+	}
+	image, err := os.ReadFile(path)
+	recs := make([][]byte, len(surv))
+	for k, s := range surv {
+		recs[k] = s.rec
+	}
+	return image, recs, err
+}
+
+func kaitaiSeekPrograms(res *Result, drv *Driver, dir string, seed uint64, i int, tier string) error {
+	r := NewRng(seed+0x5eec, uint64(i)+(1<<32))
+	c := genKaitaiSeekCase(r, tier)
+	// uncompressed (payload bytes are file bytes: zero tails stay zero) and one compressed type
+	for _, ct := range []int{0, 1 + r.Intn(3)} {
+		path := filepath.Join(dir, fmt.Sprintf("k%d_seek%d.rio", i, ct))
+		image, surv, err := kaitaiWriteSeekProgram(res, path, ct, c)
+		if err != nil {
+			return fmt.Errorf("case %d seek program comp %d: %w", i, ct, err)
+		}
+		res.Cases++
+		cs := c.str(ct)
+		res.Stat(fmt.Sprintf("seek-program:seeks=%d", c.seeks))
+		res.Stat(fmt.Sprintf("seek-program:comp=%d", ct))
+		res.Stat(fmt.Sprintf("seek-program:surviving-records=%d", min(len(surv), 6)))
+		if n := len(surv); n > 0 && len(surv[n-1]) > 0 && surv[n-1][len(surv[n-1])-1] == 0 {
+			res.Stat("seek-program:last-record-ends-in-zero")
+		}
+		for _, o := range c.ops {
+			if !o.seek && len(o.rec) > 0 && o.rec[len(o.rec)-1] == 0 {
+				res.Stat("seek-program:payload-ends-in-zero")
+			}
+		}
+		res.NoteNontrivial("seek:" + cs)
+		if ct == 0 {
+			res.Sample(cs)
+		}
+		native, nerr := kaitaiNative(path)
+		impl, rio, perr := kaitaiRealFile(path)
+		_ = os.Remove(path)
+		want := native
+		if nerr != nil {
+			// C04 territory (rio stream); here the records the program leaves are the reference instead
+			res.Stat("seek-program:native-reader-failed")
+			want = surv
+		} else if len(native) != len(surv) {
+			res.Stat("seek-program:native-reader-sees-other-record-count")
+		}
+		if err := kaitaiOracle(res, i, ct, "seek-rewritten-file:", surv, cs, want, impl, rio, perr); err != nil {
+			return err
+		}
+		if err := kaitaiAskModel(res, drv, i, "kaitai.parse(seek program)", image, impl, cs); err != nil {
+			return err
+		}
+	}
+	return nil
+}
+
 func runKaitai(res *Result, drv *Driver, seed uint64, n int, tier string, only int) error {
 	dir, err := os.MkdirTemp("", "verif-kaitai-")
 	if err != nil {
@@ -249,7 +504,9 @@ func runKaitai(res *Result, drv *Driver, seed uint64, n int, tier string, only i
 	defer os.RemoveAll(dir)
 	res.Rule = "record lists (nil / empty / marker soup / varint-boundary sizes) x compression 0..3 written by recordio.FileWriter and " +
 		"parsed by kaitai/gokaitai, the native reader and the Lean schema interpreter; non-trivial = at least one record; " +
-		"distinct = distinct (compression, record list) strings; plus cut, magic-damaged and direct-I/O images (model correspondence only)"
+		"distinct = distinct (compression, record list) strings; every second case additionally a writer program with 1..3 Seeks back to surviving record " +
+		"offsets (payloads ending in zero bytes, less / as much / more data rewritten), uncompressed and one compressed type, same oracle; " +
+		"plus cut, magic-damaged and direct-I/O images (model correspondence only)"
 
 	// ---- every compression code the writer accepts parses and maps to a named constant of the generated reader
 	if only < 0 {
@@ -335,56 +592,8 @@ func runKaitai(res *Result, drv *Driver, seed uint64, n int, tier string, only i
 			}
 
 			// ---- property oracle (C20) on the implementation
-			res.Evaluations++
-			if perr != nil {
-				res.Violate(i, "C20", kaitaiSig("parse-error", ct, c.recs), "kaitai reader failed: "+impl+" ("+perr.Error()+")", cs)
-			} else {
-				var bad []string
-				if rio.FileHeader.Version != uint32(recordio.CurrentVersion) {
-					bad = append(bad, fmt.Sprintf("version %d", rio.FileHeader.Version))
-				}
-				if int(rio.FileHeader.CompressionType) != ct || kaitaiEnumName(rio.FileHeader.CompressionType) == "?" {
-					bad = append(bad, fmt.Sprintf("compression %d (%s), written %d", int(rio.FileHeader.CompressionType), kaitaiEnumName(rio.FileHeader.CompressionType), ct))
-				}
-				if len(rio.Record) != len(native) {
-					bad = append(bad, fmt.Sprintf("%d records, native reader sees %d", len(rio.Record), len(native)))
-				} else {
-					comp := compressorFor(ct)
-					for k, rec := range rio.Record {
-						if (rec.RecordNil == 1) != (native[k] == nil) || rec.RecordNil > 1 {
-							bad = append(bad, fmt.Sprintf("record %d: nil flag %d, native nil=%v", k, rec.RecordNil, native[k] == nil))
-							continue
-						}
-						if !bytes.Equal(rec.Magic, recordio.MagicNumberSeparatorLongBytes) {
-							bad = append(bad, fmt.Sprintf("record %d: magic %x", k, rec.Magic))
-						}
-						// stored bytes: nothing for nil, raw bytes when uncompressed, compressor output otherwise
-						var want []byte
-						switch {
-						case native[k] == nil:
-							want = nil
-						case comp == nil:
-							want = native[k]
-						default:
-							st, err := comp.Compress(native[k])
-							if err != nil {
-								return fmt.Errorf("compress: %w", err)
-							}
-							want = st
-							// independent of the compressor being deterministic: the stored bytes decompress to the record
-							back, derr := comp.Decompress(rec.Payload)
-							if derr != nil || !bytes.Equal(back, native[k]) {
-								bad = append(bad, fmt.Sprintf("record %d: payload does not decompress to the record (%v)", k, derr))
-							}
-						}
-						if !bytes.Equal(rec.Payload, want) {
-							bad = append(bad, fmt.Sprintf("record %d: payload %s, stored bytes %s", k, gb(nonNil(rec.Payload)), gb(nonNil(want))))
-						}
-					}
-				}
-				if len(bad) > 0 {
-					res.Violate(i, "C20", kaitaiSig("wrong-records", ct, c.recs), strings.Join(bad, "; "), cs)
-				}
+			if err := kaitaiOracle(res, i, ct, "", c.recs, cs, native, impl, rio, perr); err != nil {
+				return err
 			}
 			// ---- model correspondence on the same image
 			if err := kaitaiAskModel(res, drv, i, "kaitai.parse", image, impl, cs); err != nil {
@@ -416,6 +625,12 @@ func runKaitai(res *Result, drv *Driver, seed uint64, n int, tier string, only i
 						return err
 					}
 				}
+			}
+		}
+		// ---- writer programs with one, two or three Seeks back (own generator state: the cases above stay as they were)
+		if i%2 == 0 {
+			if err := kaitaiSeekPrograms(res, drv, dir, seed, i, tier); err != nil {
+				return err
 			}
 		}
 		// ---- outside the property's quantifier (record lists x compression): a direct-I/O writer pads the file
